@@ -258,4 +258,16 @@ CHECKS = {
              ">=1 non-gap",
         technique="property-based testing against a naive reference",
     ),
+    "C33": dict(
+        test="TestC33", level="exploration", shards=16,
+        tiers=dict(quick=dict(checks=150, timeout=600), thorough=dict(checks=10000, timeout=3000)),
+        rule="rapid CSV files over a generated bucket schema (1-4 numeric columns, 1-400 rows, header row, time zone "
+             "UTC/Tokyo/New_York, optional valid quoting and blank lines) with at most one injected fault (fewer/more "
+             "fields, unparsable or empty number, unparsable time, bare quote, unbalanced quote) at any row and column, "
+             "imported through the real \\load command (hook VerifLoad, fake API client recording Write requests) or "
+             "through the loader loop with chunk sizes 1-1000; oracle: an error is returned, or the concatenation of the "
+             "written datasets equals all data rows with the values and epochs the file states; a panic is a violation; "
+             "non-trivial = a fault located after at least one valid row",
+        technique="property-based testing with fault injection, round-trip oracle",
+    ),
 }
